@@ -61,6 +61,14 @@ def margin_safe(ref, decoy):
                 return False
     return True
 
+def has_reference_contact(ref):
+    """at least one inter-chain pair of non-hydrogen atoms within 5 A (Fnat is defined: the property's quantifier)"""
+    for a, b in itertools.combinations(ref, 2):
+        if a['chainID'] != b['chainID'] and a['name'][0] != 'H' and b['name'][0] != 'H':
+            if math.dist((a['x'], a['y'], a['z']), (b['x'], b['y'], b['z'])) <= 4.98:
+                return True
+    return False
+
 def fits(atoms):
     return all(-999.0 < a[c] < 9999.0 for a in atoms for c in 'xyz') and all(-999 <= a['resSeq'] <= 9999 for a in atoms)
 
@@ -130,24 +138,31 @@ def compare(base, var, tol, measures, permutation):
         bad = [(m, w) for m, w in bad if m not in ('capri', 'dockq')]
     return bad
 
+_pair_no = [0]
 def run_pair(ctx, pdb2sql, case):
     ref, decoy = case['ref'], case['decoy']
-    rp0 = gen_complex.write_pdb(os.path.join(ctx.scratch, 'r0.pdb'), ref)
-    dp0 = gen_complex.write_pdb(os.path.join(ctx.scratch, 'd0.pdb'), decoy)
+    # file names are fresh per pair (a pair must not inherit anything from the previous one) but shared by all the
+    # variants of one pair, which are written one after the other under the same two names — the way a user
+    # re-scores an edited file; anything remembered per file name across calls then shows as a changed score
+    _pair_no[0] += 1
+    names = ['%s%d_%d.pdb' % (k, i, _pair_no[0]) for k in 'rd' for i in (0, 1)]
+    r0, r1, d0, d1 = [os.path.join(ctx.scratch, n) for n in names]
+    rp0 = gen_complex.write_pdb(r0, ref)
+    dp0 = gen_complex.write_pdb(d0, decoy)
     results = []
     base = {e: score_all(pdb2sql, dp0, rp0, e) for e in (False, True)}
     for name, r2, d2, tol, measures, perm in case['variants']:
         if not (fits(r2) and fits(d2)):
             continue
-        rp = gen_complex.write_pdb(os.path.join(ctx.scratch, 'r1.pdb'), r2)
-        dp = gen_complex.write_pdb(os.path.join(ctx.scratch, 'd1.pdb'), d2)
+        rp = gen_complex.write_pdb(r1, r2)
+        dp = gen_complex.write_pdb(d1, d2)
         for enforce in ((False, True) if perm else (False,)):
             var = score_all(pdb2sql, dp, rp, enforce, measures)
             bad = compare(base[enforce], var, tol, measures, perm)
             dec_t, ref_t = SC.table_atoms(d2), SC.table_atoms(r2)
             results.append((name, enforce, bad, SC.relative_order_differs(dec_t, ref_t, lambda a: a[4] in SC.BB)))
-    for p in ('r0.pdb', 'd0.pdb', 'r1.pdb', 'd1.pdb'):
-        try: os.remove(os.path.join(ctx.scratch, p))
+    for p in (r0, r1, d0, d1):
+        try: os.remove(p)
         except OSError: pass
     return results
 
@@ -162,11 +177,18 @@ def explore(ctx, tier, rng, search=False):
         for f in sorted(os.listdir(cdir)):
             c = json.load(open(os.path.join(cdir, f))); cases.append(c.get('case', c))
     tries = 0
-    while len(cases) < n and tries < 40 * n:
+    while len(cases) < n and tries < 120 * n:
         tries += 1
         ref, decoy, feats = C07.gen_pair(rng)
+        if ref is not None and len(cases) % 2 == 0:
+            # near-native decoy (same atoms, 0.05 A noise): Fnat is well above 0, so that a change that loses the
+            # reference contacts under a variant (stale per-name caches, renumbering) shows in the value
+            decoy = gen_complex.deform(rng, [dict(a) for a in ref], 0.05)
         if ref is None or not margin_safe(ref, decoy):
             rep.skipped['not-margin-safe'] += 1
+            continue
+        if not has_reference_contact(ref) and len(cases) % 4 != 3:
+            rep.skipped['no-reference-contact'] += 1
             continue
         cases.append({'ref': ref, 'decoy': decoy, 'variants': variants(rng, ref, decoy)})
     for case in cases:
@@ -176,7 +198,9 @@ def explore(ctx, tier, rng, search=False):
             rep.case({'ref': case['ref'][:2], 'n': len(case['ref'])}, ['pair']); rep.mismatch('impl_vs_spec', case, why='harness exception ' + exc_class(e) + ': ' + str(e)[:300])
             continue
         for name, enforce, bad, reldiff in results:
-            sub = {'ref': case['ref'], 'decoy': case['decoy'], 'variants': [v for v in case['variants'] if v[0] == name]}
+            # the replay keeps the variants scored before this one too (same file names re-used: history may matter)
+            upto = [i for i, v in enumerate(case['variants']) if v[0] == name]
+            sub = {'ref': case['ref'], 'decoy': case['decoy'], 'variants': case['variants'][:upto[0] + 1] if upto else [], 'variant': name}
             rep.case({'variant': name, 'enforce': enforce, 'n_atoms': len(case['ref']), 'first_atom': case['ref'][0]}, ['variant-' + name], nontrivial=True)
             rep.hashes.add(hashlib.sha1(json.dumps([name, enforce, case['ref'][:3]], default=str).encode()).hexdigest())
             for m, why in bad:
@@ -200,5 +224,5 @@ def replay(ctx, case):
     pdb2sql = import_impl()
     case = dict(case); case['variants'] = [tuple(v) for v in case['variants']]
     results = run_pair(ctx, pdb2sql, case)
-    bad = [(n, e, b) for n, e, b, _ in results if b]
+    bad = [(n, e, b) for n, e, b, _ in results if b and n == case.get('variant', n)]
     return not bad, json.dumps(jsonable(bad[:2]))[:500] if bad else 'ok'
